@@ -834,7 +834,7 @@ pub fn mk_big8_exact() -> (OwnedTerm, RV) {
 }
 
 // ---------------------------------------------------------------- identifiers in node-local (LOCAL_EXT) form
-fn local_bytes() -> Vec<u8> {
+pub fn local_bytes() -> Vec<u8> {
     // 8 opaque hash bytes + one more byte standing for the nested encoding (content is irrelevant to ==/hash/cmp)
     let b = bytes::<9>();
     b.to_vec()
